@@ -2,40 +2,54 @@
 
 CFG = {'module': 'Dnp3.Props.C09',
  'gen': ['Variations.lean', 'Qualifiers.lean', 'AppCodes.lean'],
- 'engines': ['parse'],
+ 'engines': ['parse', 'db', 'outstationdb'],
  'monitors': None,
  'exhaustive_thorough': True,
- 'rule': 'engine parse: (1) application header: every control octet x function octets (thorough: all 256; quick: all '
-         'defined codes, neighbours, random) with 0..2 trailing octets; (2) product space variation (every group the '
-         'library knows, vars 0..11 / wildcard samples, unknown neighbours) x 10 qualifier octets x 8 count/range classes '
-         '(0, 1, 255, 256, 65535, [0,0], [255,255], [0,255], [65535,65535], [0,65535], stop<start, random) x function '
-         'class (READ, every other request code in rotation, RESPONSE; thorough adds UNSOLICITED and more) with payloads of '
-         'the reference-implied length; (3) multi-header fragments of 2..5 meaningful headers incl. group 0 attributes '
-         'and group 70 free-format objects; (4) truncation at every octet (quick: stride), extension by 1..3 octets, '
-         'single-octet mutations of pooled fragments; (5) random object octets; (6) ranges ending at index 65535 for every '
-         'ranged payload kind; (7) the master request builders (ReadRequest, ReadHeader, CommandBuilder, '
-         'write_count_of_one, write_clear_restart) with buffer capacities 2..2048. Every case runs the real '
-         'ParsedFragment::parse, to_request/to_response, the real lazy iterators over every enum variant (match '
-         'regenerated from the enum declarations) and Display at all four decode levels under catch_unwind. distinct = '
-         'distinct canonical op lists',
- 'trusted_base': ['hand-written Lean model of app/parse/parser.rs (header walk), range.rs, count.rs, bit.rs, bytes.rs, '
-                  'prefix.rs, free_format.rs, attr.rs (AttrValue::parse, parse_from_range, parse_prefixed), file/g70v*.rs '
-                  '(read), header.rs, str::from_utf8; tied by differential execution (engine parse)',
-                  'Variation::lookup, every FixedSize impl (SIZE, read fields, write fields), the five qualifier tables, '
-                  'the free-format table, function / qualifier codes, control masks, attribute type codes, g70 offsets: '
-                  'regenerated from source (Gen/Variations.lean, Gen/Qualifiers.lean, Gen/AppCodes.lean)',
-                  'hooks/parse_probe.rs + generated hooks/parse_probe_gen.rs (expose ParsedFragment / iterators / builders; '
-                  'no behaviour change)',
-                  'reference object sizes (IEEE 1815) and reference validation rules inside harness/src/eng_parse.rs'],
+ 'rule': 'engine parse: (1) application header: every control octet x function octets (thorough: all 256; '
+         'quick: all defined codes, neighbours, random) with 0..2 trailing octets; (2) product space '
+         'variation (every group the library knows, vars 0..11 / wildcard samples, unknown neighbours) x 10 '
+         'qualifier octets x 8 count/range classes (0, 1, 255, 256, 65535, [0,0], [255,255], [0,255], '
+         '[65535,65535], [0,65535], stop<start, random) x function class (READ, every other request code in '
+         'rotation, RESPONSE; thorough adds UNSOLICITED and more) with payloads of the reference-implied '
+         'length; (3) multi-header fragments of 2..5 meaningful headers incl. group 0 attributes and group '
+         '70 free-format objects; (4) truncation at every octet (quick: stride), extension by 1..3 octets, '
+         'single-octet mutations of pooled fragments; (5) random object octets; (6) ranges ending at index '
+         '65535 for every ranged payload kind; (7) the master request builders (ReadRequest, ReadHeader, '
+         'CommandBuilder, write_count_of_one, write_clear_restart) with buffer capacities 2..2048. Every '
+         'case runs the real ParsedFragment::parse, to_request/to_response, the real lazy iterators over '
+         'every enum variant (match regenerated from the enum declarations) and Display at all four decode '
+         'levels under catch_unwind. distinct = distinct canonical op lists Engines db and outstationdb (the '
+         'real Database / the real OutstationTask over a populated database, see C11): every response and '
+         'unsolicited fragment the database writers emit, at every capacity and resumption point, is decoded '
+         'by an independent decoder and compared with the mirrored reference database.',
+ 'trusted_base': ['hand-written Lean model of app/parse/parser.rs (header walk), range.rs, count.rs, bit.rs, '
+                  'bytes.rs, prefix.rs, free_format.rs, attr.rs (AttrValue::parse, parse_from_range, '
+                  'parse_prefixed), file/g70v*.rs (read), header.rs, str::from_utf8; tied by differential '
+                  'execution (engine parse)',
+                  'Variation::lookup, every FixedSize impl (SIZE, read fields, write fields), the five '
+                  'qualifier tables, the free-format table, function / qualifier codes, control masks, '
+                  'attribute type codes, g70 offsets: regenerated from source (Gen/Variations.lean, '
+                  'Gen/Qualifiers.lean, Gen/AppCodes.lean)',
+                  'hooks/parse_probe.rs + generated hooks/parse_probe_gen.rs (expose ParsedFragment / '
+                  'iterators / builders; no behaviour change)',
+                  'reference object sizes (IEEE 1815) and reference validation rules inside '
+                  'harness/src/eng_parse.rs',
+                  'hand-written Lean model of outstation/database/** (event buffer, static database, '
+                  'response writers) tied by differential execution of the real Database (engine db) and of '
+                  'the real OutstationTask (engine outstationdb)'],
  'assumptions': ['octets are values < 256',
-                 'group 0 attribute values and group 70 file objects: accepted / rejected and consumed length are modelled and '
-                 'compared; their decoded field values are not itemised (objs -)',
-                 'outstation response writers (range/event/prefix writers) are exercised by the outstation engine, not here'],
- 'level_text': 'Lean theorems about the object-header grammar model for all octet strings: SIZE = sum of field widths and '
-               'read order = write order for every regenerated variation, generic field round trip, walk exactness (accepted '
-               '=> input is the concatenation of the header images, payload length is what variation/qualifier/count imply), '
-               'well-founded termination with strict progress, control-octet and header round trips, iterator agreement '
-               '(count, indices, slices; octet-string ranges up to and including index 65535, no iterator panic); model tied to the code by the '
-               'regenerated tables and by differential execution of the real parser, iterators, Display and builders',
- 'level_note': 'trusted: Lean kernel (+ propext/Classical.choice/Quot.sound), translate.py + gen_variations.py, the '
-               'correspondence harness; the Rust is modelled, not verified'}
+                 'group 0 attribute values and group 70 file objects: accepted / rejected and consumed '
+                 'length are modelled and compared; their decoded field values are not itemised (objs -)',
+                 'outstation response writers (range/event/prefix writers) are exercised by the outstation '
+                 'engine, not here'],
+ 'level_text': 'Lean theorems about the object-header grammar model for all octet strings: SIZE = sum of '
+               'field widths and read order = write order for every regenerated variation, generic field '
+               'round trip, walk exactness (accepted => input is the concatenation of the header images, '
+               'payload length is what variation/qualifier/count imply), well-founded termination with '
+               'strict progress, control-octet and header round trips, iterator agreement (count, indices, '
+               'slices; octet-string ranges up to and including index 65535, no iterator panic); model tied '
+               'to the code by the regenerated tables and by differential execution of the real parser, '
+               'iterators, Display and builders',
+ 'level_note': 'trusted: Lean kernel (+ propext/Classical.choice/Quot.sound), translate.py + '
+               'gen_variations.py, the correspondence harness; the Rust is modelled, not verified',
+ 'engine_monitors': {'db': ['response_well_formed'], 'outstationdb': ['fits_and_parses']}}
